@@ -212,12 +212,14 @@ class PreemptiveResource(PriorityResource):
             preempt = sorted(self.users, key=lambda e: e.key)[-1]
             if preempt.key > event.key:
                 self.users.remove(preempt)
-                preempt.proc.interrupt(  # type: ignore
-                    Preempted(
-                        by=event.proc,
-                        usage_since=preempt.usage_since,
-                        resource=self,
+                # (a user whose process has already ended just loses the slot)
+                if preempt.proc is not None and preempt.proc.is_alive:
+                    preempt.proc.interrupt(
+                        Preempted(
+                            by=event.proc,
+                            usage_since=preempt.usage_since,
+                            resource=self,
+                        )
                     )
-                )
 
         return super()._do_put(event)
